@@ -98,11 +98,36 @@ func c01Run(cs *core.Case, items []c01Item) {
 	if meter {
 		a0 = mon.TotalAlloc()
 	}
+	// receivers that already hold the result of an earlier successful decode of this batch, per
+	// packet decoder: the statement quantifies over byte strings and entry points, not only over
+	// fresh receivers
+	var used [1 + int(gen.NumKinds)]rtcp.Packet
 	for i := range items {
 		it := &items[i]
 		ep := &entryPoints[it.ep]
 		var err error
-		panicked, val, stack := core.Guard(func() { _, err = ep.call(it.in) })
+		var fresh any
+		panicked, val, stack := core.Guard(func() { fresh, err = ep.call(it.in) })
+		if !panicked && ep.kind >= 0 && it.ep < len(used) && len(it.in) <= 4096 {
+			if u := used[it.ep]; u != nil && i%3 == 0 {
+				var uerr error
+				if p2, v2, st2 := core.Guard(func() { uerr = u.Unmarshal(it.in) }); p2 {
+					cs.Fail("panic/used-receiver/"+ep.name, core.W{"entry_point": ep.name, "input_hex": mon.Hex(it.in, 512), "input_len": len(it.in),
+						"receiver_before_this_call": "the value left by earlier successful decodes of this batch", "panic": fmt.Sprint(v2), "stack": st2})
+					used[it.ep] = nil
+				} else {
+					c.Res.Hist["used-receiver-decodes"]++
+					if uerr != nil {
+						used[it.ep] = nil // a failed decode leaves an arbitrary mix: start over
+					}
+				}
+			}
+			if err == nil && used[it.ep] == nil {
+				if p, ok := fresh.(rtcp.Packet); ok {
+					used[it.ep] = p
+				}
+			}
+		}
 		if panicked {
 			cs.Fail("panic/"+ep.name, core.W{"entry_point": ep.name, "input_hex": mon.Hex(it.in, 512), "input_len": len(it.in), "panic": fmt.Sprint(val), "stack": stack})
 			continue
